@@ -49,6 +49,7 @@ pub fn all() -> Vec<Regression> {
         Regression { name: "D30-bdf-initial-step-exponent", property: "C01", what: "BDF on y''=-y from x0 = 50.2 with rtol=1e-9, atol=1e-12 and the automatic initial step must reach xend", f: d30 },
         Regression { name: "D31-dop853-nonfinite-after-error-test", property: "C04", what: "DOP853, first_step = 2*span: a single NaN answer at the new-point derivative or a dense-output stage of the last step must not give Success with NaN samples", f: d31 },
         Regression { name: "D32-dense-without-accepted-step", property: "C06", what: "Radau/BDF, first_step = span/2, max_steps = 5, dense output: the run ends before its first accepted step and sol(x0) must still return y0", f: d32 },
+        Regression { name: "D33-dopri5-naccpt-at-probably-stiff", property: "C18", what: "DOPRI5 on y'=-2000(y-cos t) ends with ProbablyStiff: naccpt must equal the number of reported intervals", f: d33 },
         Regression { name: "D16-rk4-dense-order", property: "C07", what: "RK4 cubic Hermite dense output must be O(h^4) inside a step", f: d16 },
     ]
 }
@@ -592,6 +593,27 @@ fn d28() -> Result<(), String> {
     for w in s.t.windows(2) {
         if !(w[1] > w[0]) {
             return Err(format!("t not strictly increasing: {:e} then {:e}", w[0], w[1]));
+        }
+    }
+    Ok(())
+}
+
+fn d33() -> Result<(), String> {
+    let p = crate::problems::Prob {
+        name: "tracking".into(),
+        n: 1,
+        f: std::sync::Arc::new(|t, y, d| d[0] = -2000.0 * (y[0] - t.cos())),
+        jac: None,
+        flow: None,
+        y0: vec![1.0],
+        linear_homogeneous: false,
+    };
+    for m in [Method::DOPRI5, Method::DOP853] {
+        let c = Cfg::new(m, 0.0, 4.0, &p.y0).tol(1e-6, 1e-8);
+        let r = run(&p, &c);
+        let s = sol_of(&r)?;
+        if s.naccpt != s.t.len() - 1 {
+            return Err(format!("{}: status {:?}, naccpt = {} but {} reported intervals", mname(m), s.status, s.naccpt, s.t.len() - 1));
         }
     }
     Ok(())
